@@ -28,10 +28,35 @@ Proof.
     reflexivity.
 Qed.
 
+
+(** ** reconcile (whole trees): the `for` loop that pushes onto `out` is [reconcile_over] *)
+Section Trees.
+Variable K : Type.
+Variable cmp : K -> K -> comparison.
+
+Lemma action_eqb_noop act : action_eqb act Noop = is_noop act.
+Proof. destruct act as [| | | | | |k]; try reflexivity. destruct k; reflexivity. Qed.
+
+Lemma tie_reconcile a b base trust :
+  g_reconcile digest deq K cmp a b base trust = reconcile digest deq K cmp a b base trust.
+Proof.
+  unfold g_reconcile, reconcile, union_keys. cbv zeta.
+  match goal with |- context [for_loop ?ps ?bd ?ac] => set (body := bd); set (paths := ps) end.
+  assert (Hloop : forall l acc, for_loop l body acc = inl (acc ++ reconcile_over digest deq K cmp l a b base trust)).
+  { induction l as [|p l IH]; intros acc; cbn [for_loop reconcile_over].
+    - rewrite app_nil_r. reflexivity.
+    - unfold body at 1. rewrite tie_reconcile_path, action_eqb_noop.
+      destruct (is_noop _); cbn [negb]; rewrite IH; [reflexivity|].
+      rewrite <- app_assoc. reflexivity. }
+  rewrite Hloop. reflexivity.
+Qed.
+End Trees.
 End WithDigest.
 
 Definition reconcile_model_is_translation : Prop :=
-  forall (digest : Type) (deq : forall x y : digest, {x = y} + {x <> y}) (a b base : option (fingerprint digest)),
-    g_reconcile_path digest deq a b base = reconcile_path digest deq a b base.
+  forall (digest : Type) (deq : forall x y : digest, {x = y} + {x <> y}),
+    (forall a b base : option (fingerprint digest), g_reconcile_path digest deq a b base = reconcile_path digest deq a b base) /\
+    (forall (K : Type) (cmp : K -> K -> comparison) (a b base : list (K * fingerprint digest)) (trust_base : bool),
+       g_reconcile digest deq K cmp a b base trust_base = reconcile digest deq K cmp a b base trust_base).
 Lemma reconcile_model_is_translation_holds : reconcile_model_is_translation.
-Proof. intros digest deq a b base. apply tie_reconcile_path. Qed.
+Proof. intros digest deq. split; [intros a b base; apply tie_reconcile_path|intros K cmp a b base trust; apply tie_reconcile]. Qed.
